@@ -12,9 +12,14 @@
    (fuel has no counterpart in Python: it bounds the while loop).
 
    These proofs are meant to break when one of the Python functions changes its
-   meaning: the loop lemma takes the translated loop test and body as they are
-   generated (matched from the goal, so that renamed locals or an introduced
-   temporary do not matter) and compares them with the steps of the model. *)
+   meaning, and to keep checking when it is only written differently: the loop
+   lemmas ([level_while], [level_for]) take the translated loop test and body as
+   they are generated (matched from the goal), for the counting `while` as well as
+   for `for end_pos in range(ngram, len + 1)`, over any tuple of loop-carried
+   variables (the invariant is stated through the continuation of the loop, so the
+   number, names and order of the variables do not matter; in the `while` shape
+   end_pos must be the last of them); renamed locals, introduced temporaries and
+   local names for the read-only tables are lets that the proofs reduce away. *)
 From Coq Require Import List Arith Bool NArith ZArith Lia.
 From Pcfg Require Import KernelRt OmenSpec OmenLevel OmenRt OmenRtProofs OmenLevelProofs.
 From PcfgGen Require Import OmenLevel_gen.
@@ -44,7 +49,6 @@ Proof.
 Qed.
 
 Section LevelLoop.
-Context {Win : Type}.
 (* the cost of the window of S n1 characters at the front of a suffix; None = KeyError *)
 Variable cost : ostr -> option nat.
 Variable n1 : nat.
@@ -55,40 +59,104 @@ Fixpoint trans_gen (s : ostr) : option nat :=
   | _ :: r => if Nat.leb (length s) n1 then Some 0 else oadd (cost (firstn (S n1) s)) (trans_gen r)
   end.
 
-(* the while loop of find_omen_level / OmenScorer.parse over the state (chunk, chain_level, end_pos) *)
-Lemma level_loop (s : ostr) (cond : ostr * Z * Z -> bool) (body : ostr * Z * Z -> res (ctl Z (ostr * Z * Z)))
-      (k : ostr * Z * Z -> res Z) (k0 : Z -> res Z) :
-  (forall ch cl e, k (ch, cl, e) = k0 cl) ->
-  (forall ch cl j, j <= length s ->
-     cond (ch, cl, Z.of_nat (S n1 + j)) = negb (Nat.leb (length (skipn j s)) n1)) ->
-  (forall ch cl j, S n1 + j <= length s ->
-     body (ch, cl, Z.of_nat (S n1 + j)) =
+(* The transition loop of find_omen_level / OmenScorer.parse, in either of its two shapes,
+   over ANY tuple St of loop-carried variables.  What the loop has accumulated is read off the
+   continuation: the invariant is "what follows the loop, run from this state, is k0 v" (k0 v =
+   `return ln_level + v`), so that neither the number nor the order of the loop-carried
+   variables matters. *)
+Context {St : Type}.
+Variable s : ostr.
+Variable k : St -> res Z.
+Variable k0 : Z -> res Z.
+
+(* end_pos = ngram; while end_pos <= len: ...; end_pos += 1      (pos: the end_pos component) *)
+Lemma level_while (cond : St -> bool) (body : St -> res (ctl Z St)) (pos : St -> Z) :
+  (forall st, cond st = (pos st <=? zlen s)%Z) ->
+  (forall st v j, S n1 + j <= length s -> k st = k0 v -> pos st = Z.of_nat (S n1 + j) ->
      match cost (firstn (S n1) (skipn j s)) with
-     | Some a => Ok (Continue (firstn (S n1) (skipn j s), (cl + Z.of_nat a)%Z, Z.of_nat (S n1 + S j)))
-     | None => Raise KeyError
+     | Some a => exists st', body st = Ok (Continue st') /\ k st' = k0 (v + Z.of_nat a)%Z /\ pos st' = (pos st + 1)%Z
+     | None => body st = Raise KeyError
      end) ->
-  forall r j fuel ch cl, r = skipn j s -> j <= length s -> length r < fuel ->
-  mwhile fuel cond body (ch, cl, Z.of_nat (S n1 + j)) k =
+  forall r j fuel st v, r = skipn j s -> j <= length s -> length r < fuel ->
+  k st = k0 v -> pos st = Z.of_nat (S n1 + j) ->
+  mwhile fuel cond body st k =
   match trans_gen r with
-  | Some x => k0 (cl + Z.of_nat x)%Z
+  | Some x => k0 (v + Z.of_nat x)%Z
   | None => Raise KeyError
   end.
 Proof.
-  intros Hk Hc Hb. induction r as [|c r IH]; intros j fuel ch cl Hr Hj Hf.
-  - destruct fuel as [|fuel]; [cbn in Hf; lia|]. cbn [mwhile trans_gen]. rewrite (Hc ch cl j Hj), <- Hr.
-    cbn [length Nat.leb negb]. rewrite Hk. f_equal. lia.
-  - destruct fuel as [|fuel]; [cbn in Hf; lia|]. cbn [mwhile trans_gen]. rewrite (Hc ch cl j Hj), <- Hr.
-    destruct (Nat.leb (length (c :: r)) n1) eqn:E; cbn [negb].
-    + rewrite Hk. f_equal. lia.
+  intros Hc Hb. induction r as [|c r IH]; intros j fuel st v Hr Hj Hf HK HP.
+  - destruct fuel as [|fuel]; [cbn in Hf; lia|]. cbn [mwhile trans_gen]. rewrite Hc, HP.
+    assert (length s <= j) by (apply (f_equal (@length N)) in Hr; rewrite skipn_length in Hr; cbn in Hr; lia).
+    replace (Z.of_nat (S n1 + j) <=? zlen s)%Z with false by (symmetry; apply Z.leb_gt; unfold zlen; lia).
+    rewrite HK. f_equal. lia.
+  - destruct fuel as [|fuel]; [cbn in Hf; lia|]. cbn [mwhile trans_gen]. rewrite Hc, HP.
+    assert (Hlen : length (c :: r) = length s - j) by (rewrite Hr; apply skipn_length).
+    destruct (Nat.leb (length (c :: r)) n1) eqn:E.
+    + apply Nat.leb_le in E.
+      replace (Z.of_nat (S n1 + j) <=? zlen s)%Z with false by (symmetry; apply Z.leb_gt; unfold zlen; lia).
+      rewrite HK. f_equal. lia.
     + apply Nat.leb_gt in E.
-      assert (Hlen : length (c :: r) = length s - j) by (rewrite Hr; apply skipn_length).
-      rewrite (Hb ch cl j) by lia. rewrite <- Hr.
+      replace (Z.of_nat (S n1 + j) <=? zlen s)%Z with true by (symmetry; apply Z.leb_le; unfold zlen; lia).
+      specialize (Hb st v j ltac:(lia) HK HP). rewrite <- Hr in Hb.
       assert (Hr' : r = skipn (S j) s) by (apply (skipn_S_cons s j c r Hr)).
-      destruct (cost (firstn (S n1) (c :: r))) as [a|]; [|reflexivity].
-      rewrite (IH (S j) fuel _ _ Hr') by (cbn [length] in *; lia).
+      destruct (cost (firstn (S n1) (c :: r))) as [a|]; [|now rewrite Hb].
+      destruct Hb as (st' & Eb & HK' & HP'). rewrite Eb.
+      rewrite (IH (S j) fuel st' (v + Z.of_nat a)%Z Hr') by (cbn [length] in *; first [exact HK' | lia]).
       destruct (trans_gen r) as [x|]; cbn [oadd]; [|reflexivity]. f_equal. lia.
 Qed.
+
+(* for end_pos in range(ngram, len + 1): ... *)
+Lemma level_for (body : Z -> St -> res (ctl Z St)) :
+  (forall st v j, S n1 + j <= length s -> k st = k0 v ->
+     match cost (firstn (S n1) (skipn j s)) with
+     | Some a => exists st', body (Z.of_nat (S n1 + j)) st = Ok (Continue st') /\ k st' = k0 (v + Z.of_nat a)%Z
+     | None => body (Z.of_nat (S n1 + j)) st = Raise KeyError
+     end) ->
+  forall r j a st v, r = skipn j s -> j <= length s -> a = Z.of_nat (S n1 + j) -> k st = k0 v ->
+  mfor (zrange a (zlen s + 1)) body st k =
+  match trans_gen r with
+  | Some x => k0 (v + Z.of_nat x)%Z
+  | None => Raise KeyError
+  end.
+Proof.
+  intros Hb. induction r as [|c r IH]; intros j a st v Hr Hj -> HK.
+  - assert (length s <= j) by (apply (f_equal (@length N)) in Hr; rewrite skipn_length in Hr; cbn in Hr; lia).
+    rewrite zrange_nil by (unfold zlen; lia). cbn [mfor trans_gen]. rewrite HK. f_equal. lia.
+  - cbn [trans_gen].
+    assert (Hlen : length (c :: r) = length s - j) by (rewrite Hr; apply skipn_length).
+    destruct (Nat.leb (length (c :: r)) n1) eqn:E.
+    + apply Nat.leb_le in E. rewrite zrange_nil by (unfold zlen; lia). cbn [mfor]. rewrite HK. f_equal. lia.
+    + apply Nat.leb_gt in E. rewrite zrange_cons by (unfold zlen; lia). cbn [mfor].
+      specialize (Hb st v j ltac:(lia) HK). rewrite <- Hr in Hb.
+      assert (Hr' : r = skipn (S j) s) by (apply (skipn_S_cons s j c r Hr)).
+      destruct (cost (firstn (S n1) (c :: r))) as [x|]; [|now rewrite Hb].
+      destruct Hb as (st' & Eb & HK'). rewrite Eb.
+      rewrite (IH (S j) (Z.of_nat (S n1 + j) + 1)%Z st' (v + Z.of_nat x)%Z Hr') by (cbn [length] in *; first [exact HK' | lia]).
+      destruct (trans_gen r) as [y|]; cbn [oadd]; [|reflexivity]. f_equal. lia.
+Qed.
 End LevelLoop.
+
+(* the loop-carried variables as the components of the state tuple *)
+Ltac split_state := repeat match goal with x : (_ * _)%type |- _ => destruct x end.
+
+(* the conclusion of one iteration: the new state continues with the accumulated level (and, in the
+   while shape, end_pos has advanced) *)
+Ltac close_step :=
+  eexists; split; [reflexivity|];
+  lazymatch goal with
+  | |- _ /\ _ => split; [cbn; f_equal; lia | cbn; lia]
+  | |- _ => cbn; f_equal; lia
+  end.
+
+(* the premises of a loop iteration, in either shape: the state tuple is taken apart, "the continuation
+   returns ln_level + v" becomes an equation on the chain_level component, end_pos becomes S n1 + j *)
+Ltac open_step :=
+  split_state;
+  repeat match goal with H : snd _ = _ |- _ => cbn [fst snd] in H; subst end;
+  repeat match goal with H : ?l = Ok _ |- _ => cbn beta iota zeta in H; injection H as H end;
+  cbn beta iota zeta.
+
 
 Lemma t_trans_gen T n1 s : t_trans T n1 s = trans_gen (t_cp T) n1 s.
 Proof. induction s as [|c r IH]; [reflexivity|]. cbn [t_trans trans_gen]. now rewrite IH. Qed.
@@ -131,24 +199,34 @@ Proof.
   cbn [bind].
   rewrite ?pyslice_no_lower. rewrite pyslice_prefix by lia. replace (Z.to_nat (Z.of_nat (S n1) - 1)) with n1 by lia.
   unfold t_ip. destruct (find_entry (firstn n1 s) (tt_grammar T)) as [e|] eqn:EIP; cbn [dict_get bind option_map catch exn_eqb oadd levelZ]; [|reflexivity].
-  match goal with |- context [mwhile fuel ?c ?b ?i ?k] =>
-    replace i with (firstn n1 s, Z.of_nat (te_ip e), Z.of_nat (S n1 + 0)) by (repeat f_equal; lia);
-    rewrite (level_loop (t_cp T) n1 s c b k (fun cl => Ok (Z.of_nat ll + cl)%Z))
-      with (r := s) (j := 0) end.
-  - rewrite <- t_trans_gen. destruct (t_trans T n1 s) as [x|]; cbn [catch exn_eqb oadd levelZ]; [|reflexivity].
-    f_equal. lia.
-  - intros ch cl e0. reflexivity.
-  - intros ch cl j Hj. cbn beta iota zeta. unfold zlen. rewrite skipn_length.
-    destruct (Nat.leb_spec (length s - j) n1); cbn [negb]; [apply Z.leb_gt | apply Z.leb_le]; lia.
-  - intros ch cl j Hj. cbn beta iota zeta. rewrite window_slice by exact Hj.
-    rewrite pyslice_removelast. unfold t_cp.
-    destruct (find_entry (removelast (firstn (S n1) (skipn j s))) (tt_grammar T)) as [e1|]; cbn [dict_get bind]; [|reflexivity].
-    rewrite (pyindex_last _ 0%N) by (apply window_nonempty; exact Hj). cbn [bind].
-    destruct (find_letter (last (firstn (S n1) (skipn j s)) 0%N) (te_next e1)) as [a|]; cbn [dict_get bind]; [|reflexivity].
-    repeat f_equal. lia.
-  - reflexivity.
-  - lia.
-  - exact Hf.
+  (* the loop, as a while or as a for over range(ngram, pw_len + 1) *)
+  assert (STEP : forall w : ostr, w <> [] -> forall (X : Type) (kk : nat -> res X) (v : Z),
+            (tmp3 <- dict_get (find_entry (pyslice w None (Some (-1)%Z)) (tt_grammar T)) ;;
+             tmp4 <- pyindex w (-1)%Z ;;
+             tmp5 <- dict_get (find_letter tmp4 (te_next tmp3)) ;; kk tmp5) =
+            match t_cp T w with Some a => kk a | None => Raise KeyError end).
+  { intros w Hw X kk v. rewrite pyslice_removelast. unfold t_cp.
+    destruct (find_entry (removelast w) (tt_grammar T)) as [e1|]; cbn [dict_get bind]; [|reflexivity].
+    rewrite (pyindex_last _ 0%N) by exact Hw. cbn [bind].
+    destruct (find_letter (last w 0%N) (te_next e1)); reflexivity. }
+  first
+  [ match goal with |- context [mwhile fuel ?c ?b ?i ?k] =>
+      rewrite (level_while (t_cp T) n1 s k (fun cl => Ok (Z.of_nat ll + cl)%Z) c b snd)
+        with (r := s) (j := 0) (v := Z.of_nat (te_ip e));
+      [ | intro st; split_state; cbn beta iota zeta; reflexivity
+        | intros st v j Hj HK HP; open_step; rewrite window_slice by exact Hj;
+          rewrite (STEP _ (window_nonempty s n1 j Hj) _ _ v);
+          destruct (t_cp T (firstn (S n1) (skipn j s))); [close_step | reflexivity]
+        | reflexivity | lia | exact Hf | reflexivity | cbn; lia ] end
+  | match goal with |- context [mfor (zrange ?a ?hi) ?b ?i ?k] =>
+      rewrite (level_for (t_cp T) n1 s k (fun cl => Ok (Z.of_nat ll + cl)%Z) b)
+        with (r := s) (j := 0) (v := Z.of_nat (te_ip e));
+      [ | intros st v j Hj HK; open_step; rewrite window_slice by exact Hj;
+          rewrite (STEP _ (window_nonempty s n1 j Hj) _ _ v);
+          destruct (t_cp T (firstn (S n1) (skipn j s))); [close_step | reflexivity]
+        | reflexivity | lia | lia | reflexivity ] end ].
+  rewrite <- t_trans_gen. destruct (t_trans T n1 s) as [x|]; cbn [catch exn_eqb oadd levelZ]; [|reflexivity].
+  f_equal. lia.
 Qed.
 
 Theorem gen_find_omen_level_eq_wf T s fuel : wf_ttab T -> length s < fuel ->
@@ -189,21 +267,22 @@ Proof.
     cbn [bind].
     rewrite ?pyslice_no_lower. rewrite pyslice_prefix by lia. replace (Z.to_nat (Z.of_nat (S n1) - 1)) with n1 by lia.
     destruct (first_level (firstn n1 s) (sc_ip Sc)) as [li|] eqn:EIP; cbn [dict_get bind catch exn_eqb oadd levelZ]; [|reflexivity].
-    match goal with |- context [mwhile fuel ?c ?b ?i ?k] =>
-      replace i with (firstn n1 s, Z.of_nat li, Z.of_nat (S n1 + 0)) by (repeat f_equal; lia);
-      rewrite (level_loop (fun w => first_level w (sc_cp Sc)) n1 s c b k (fun cl => Ok (Z.of_nat ll + cl)%Z))
-        with (r := s) (j := 0) end.
-    + rewrite <- s_trans_gen. destruct (s_trans Sc n1 s) as [x|]; cbn [catch exn_eqb oadd levelZ]; [|reflexivity].
-      f_equal. lia.
-    + intros ch cl e0. reflexivity.
-    + intros ch cl j Hj. cbn beta iota zeta. unfold zlen. rewrite skipn_length.
-      destruct (Nat.leb_spec (length s - j) n1); cbn [negb]; [apply Z.leb_gt | apply Z.leb_le]; lia.
-    + intros ch cl j Hj. cbn beta iota zeta. rewrite window_slice by exact Hj.
-      destruct (first_level (firstn (S n1) (skipn j s)) (sc_cp Sc)) as [a|]; cbn [dict_get bind]; [|reflexivity].
-      repeat f_equal. lia.
-    + reflexivity.
-    + lia.
-    + exact Hf.
+    first
+    [ match goal with |- context [mwhile fuel ?c ?b ?i ?k] =>
+        rewrite (level_while (fun w => first_level w (sc_cp Sc)) n1 s k (fun cl => Ok (Z.of_nat ll + cl)%Z) c b snd)
+          with (r := s) (j := 0) (v := Z.of_nat li);
+        [ | intro st; split_state; cbn beta iota zeta; reflexivity
+          | intros st v j Hj HK HP; open_step; rewrite window_slice by exact Hj;
+            destruct (first_level (firstn (S n1) (skipn j s)) (sc_cp Sc)); cbn [dict_get bind]; [close_step | reflexivity]
+          | reflexivity | lia | exact Hf | reflexivity | cbn; lia ] end
+    | match goal with |- context [mfor (zrange ?a ?hi) ?b ?i ?k] =>
+        rewrite (level_for (fun w => first_level w (sc_cp Sc)) n1 s k (fun cl => Ok (Z.of_nat ll + cl)%Z) b)
+          with (r := s) (j := 0) (v := Z.of_nat li);
+        [ | intros st v j Hj HK; open_step; rewrite window_slice by exact Hj;
+            destruct (first_level (firstn (S n1) (skipn j s)) (sc_cp Sc)); cbn [dict_get bind]; [close_step | reflexivity]
+          | reflexivity | lia | lia | reflexivity ] end ].
+    rewrite <- s_trans_gen. destruct (s_trans Sc n1 s) as [x|]; cbn [catch exn_eqb oadd levelZ]; [|reflexivity].
+    f_equal. lia.
   - (* ngram = -1: no CP line, the first self.cp[...] raises KeyError whatever the string *)
     destruct (sc_cp Sc) as [|x r] eqn:ECP; [|discriminate].
     replace (zlen s <? -1)%Z with false by (symmetry; apply Z.ltb_ge; unfold zlen; lia). cbn [orb].
@@ -214,9 +293,11 @@ Proof.
       [| unfold zlen; lia | unfold zlen; rewrite Nat2Z.id; exact ELN].
     cbn [bind].
     match goal with |- context [dict_get ?o] => destruct o end; cbn [dict_get bind catch exn_eqb]; [|reflexivity].
-    destruct fuel as [|fuel]; [lia|]. cbn [mwhile].
-    replace (-1 <=? zlen s)%Z with true by (symmetry; apply Z.leb_le; unfold zlen; lia).
-    cbn [first_level dict_get bind catch exn_eqb]. reflexivity.
+    first
+    [ destruct fuel as [|fuel]; [lia|]; cbn [mwhile];
+      replace (-1 <=? zlen s)%Z with true by (symmetry; apply Z.leb_le; unfold zlen; lia);
+      cbn [first_level dict_get bind catch exn_eqb]; reflexivity
+    | rewrite zrange_cons by (unfold zlen; lia); cbn [mfor first_level dict_get bind catch exn_eqb]; reflexivity ].
 Qed.
 
 (* the scorer as OmenScorer._load_omen builds it from the files the trainer writes *)
